@@ -63,6 +63,7 @@ class FakeWS:
         self._closed_fut = loop.create_future()
         self._waiter = None
         self.n_sent_after_close = 0
+        self.on_event = None     # callback(kind, ws, data): "sent" at send time, "sclosed" when the server side closes
 
     # ---- API used by the server code
     async def recv(self):
@@ -81,6 +82,8 @@ class FakeWS:
             self.n_sent_after_close += 1
             raise _closed_exc(self.close_ok)
         self.outbox.append(data)
+        if self.on_event:
+            self.on_event("sent", self, data)
 
     def __aiter__(self):
         return self._iter()
@@ -110,6 +113,8 @@ class FakeWS:
             self._closed_fut.set_result(None)
         if self._waiter is not None and not self._waiter.done():
             self._waiter.set_result(None)
+        if who == "server" and self.on_event:
+            self.on_event("sclosed", self, None)
 
     def peer_send(self, data):
         if self.closed:
@@ -198,6 +203,7 @@ class ServerWorld:
         self.restart()
         self.tasks = []
         self.handler_errors = []
+        self.on_event = None
 
     def restart(self):
         """Server process restart: all in-memory objects are dropped, the directory stays."""
@@ -206,10 +212,12 @@ class ServerWorld:
         self.connector._sse_service_manager = self.manager
         self.proxy.gates = []
 
-    def open(self, sid, name="c"):
+    def open(self, sid, name="c", cid=None):
         """Open a connection: returns the FakeWS; the INIT message is already delivered."""
         loop = asyncio.get_running_loop()
         ws = FakeWS(loop, name)
+        ws.on_event = self.on_event
+        ws.cid = cid
         ws.peer_send(pickle.dumps({"type": "init", "sid": sid}))
 
         async def run():
